@@ -513,4 +513,155 @@ theorem default_union_two_fields_refused (fa : Bool → Bool → Field → Res (
     omega
   · rw [(defaultFieldLoop_spec fa hfa fs 0 none).2.2 h2]; rfl
 
+/-! ### an attribute of a marker trait (Copy / Eq) on a field or a variant: misplaced, refused — also next to its partner -/
+
+/-- A meta of this builder's trait whose builder accepts nothing is refused wherever it stands in the list. -/
+theorem scanMetas_misplaced_refused {α : Type} (F : Features) (traits mine : TraitId → Bool) (build : TraitMeta → Res α)
+    (pre post : List TraitMeta) (m : TraitMeta) (t : TraitId) (ht : traitOf F m = some t) (hm : mine t = true)
+    (hb : ¬ IsOk (build m)) (out : Option α) :
+    ¬ IsOk (scanMetas F traits mine build (pre ++ m :: post) out) := by
+  induction pre generalizing out with
+  | nil =>
+    simp only [List.nil_append, scanMetas, ht, hm, if_true]
+    split
+    · exact not_ok_identOrPanic m _
+    · split
+      · exact not_ok_identOrPanic m _
+      · split
+        · rename_i a h; exact absurd ⟨a, h⟩ hb
+        · exact not_ok_diag _
+        · exact not_ok_panic _
+  | cons q qs ih =>
+    simp only [List.cons_append, scanMetas]
+    split
+    · exact not_ok_diag _
+    · split
+      · exact not_ok_identOrPanic q _
+      · split
+        · split
+          · exact not_ok_identOrPanic q _
+          · split
+            · exact ih _
+            · exact not_ok_diag _
+            · exact not_ok_panic _
+        · exact ih _
+
+theorem scanAttrs_misplaced_refused {α : Type} (F : Features) (traits mine : TraitId → Bool) (build : TraitMeta → Res α)
+    (apre apost : List Attribute) (a : Attribute) (pre post : List TraitMeta) (m : TraitMeta) (t : TraitId)
+    (ha : (a.isEduce && a.isList) = true) (hms : a.metas = some (pre ++ m :: post))
+    (ht : traitOf F m = some t) (hm : mine t = true) (hb : ¬ IsOk (build m)) (out : Option α) :
+    ¬ IsOk (scanAttrs F traits mine build (apre ++ a :: apost) out) := by
+  induction apre generalizing out with
+  | nil =>
+    simp only [List.nil_append, scanAttrs, ha, if_true, hms]
+    split
+    · rename_i o h
+      exact absurd ⟨o, h⟩ (scanMetas_misplaced_refused F traits mine build pre post m t ht hm hb out)
+    · exact not_ok_diag _
+    · exact not_ok_panic _
+  | cons q qs ih =>
+    simp only [List.cons_append, scanAttrs]
+    split
+    · split
+      · exact not_ok_diag _
+      · split
+        · exact ih _
+        · exact not_ok_diag _
+        · exact not_ok_panic _
+    · exact ih _
+
+theorem fromAttrs_misplaced_refused {α : Type} (F : Features) (traits mine : TraitId → Bool) (build : TraitMeta → Res α) (dflt : α)
+    (apre apost : List Attribute) (a : Attribute) (pre post : List TraitMeta) (m : TraitMeta) (t : TraitId)
+    (ha : (a.isEduce && a.isList) = true) (hms : a.metas = some (pre ++ m :: post))
+    (ht : traitOf F m = some t) (hm : mine t = true) (hb : ¬ IsOk (build m)) :
+    ¬ IsOk (fromAttrs F traits mine build dflt (apre ++ a :: apost)) := by
+  unfold fromAttrs
+  split
+  · rename_i o h
+    exact absurd ⟨some o, h⟩ (scanAttrs_misplaced_refused F traits mine build apre apost a pre post m t ha hms ht hm hb none)
+  · rename_i h
+    exact absurd ⟨none, h⟩ (scanAttrs_misplaced_refused F traits mine build apre apost a pre post m t ha hms ht hm hb none)
+  · exact not_ok_diag _
+  · exact not_ok_panic _
+
+theorem mapRes_not_ok {α β : Type} (f : α → Res β) (pre post : List α) (x : α) (hx : ¬ IsOk (f x)) :
+    ¬ IsOk (mapRes f (pre ++ x :: post)) := by
+  induction pre with
+  | nil =>
+    simp only [List.nil_append, mapRes]
+    split
+    · rename_i y h; exact absurd ⟨y, h⟩ hx
+    · exact not_ok_diag _
+    · exact not_ok_panic _
+  | cons q qs ih =>
+    simp only [List.cons_append, mapRes]
+    split
+    · split
+      · rename_i ys h; exact absurd ⟨ys, h⟩ ih
+      · exact not_ok_diag _
+      · exact not_ok_panic _
+    · exact not_ok_diag _
+    · exact not_ok_panic _
+
+theorem bind_not_ok_left {α β : Type} (r : Res α) (k : α → Res β) (h : ¬ IsOk r) : ¬ IsOk (r >>= k) := by
+  cases r with
+  | ok a => exact absurd ⟨a, rfl⟩ h
+  | diag d => exact not_ok_diag _
+  | panic s => exact not_ok_panic _
+
+theorem bind_not_ok_right {α β : Type} (r : Res α) (k : α → Res β) (h : ∀ a, ¬ IsOk (k a)) : ¬ IsOk (r >>= k) := by
+  cases r with
+  | ok a => exact h a
+  | diag d => exact not_ok_diag _
+  | panic s => exact not_ok_panic _
+
+/-- **A marker-trait attribute (`Copy`, `Eq`) on a field is refused** by the marker handler whenever it scans —
+    for `Copy` that is always (`scanWithPartner = true`), also when `Clone` writes the implementation. -/
+theorem marker_attr_on_field_refused (c : Ctx) (mt : TraitMeta) (me p : TraitId) (b s : String) (w : Bool)
+    (hw : (c.traits p && !w) = false)
+    (vpre vpost : List Variant) (v : Variant) (hv : c.d.variants = vpre ++ v :: vpost)
+    (fpre fpost : List Field) (f : Field) (hf : v.fields = fpre ++ f :: fpost)
+    (apre apost : List Attribute) (a : Attribute) (hfa : f.attrs = apre ++ a :: apost)
+    (pre post : List TraitMeta) (m : TraitMeta)
+    (ha : (a.isEduce && a.isList) = true) (hms : a.metas = some (pre ++ m :: post)) (ht : traitOf c.F m = some me) :
+    ¬ IsOk (markerHandler c mt me p b s w) := by
+  unfold markerHandler
+  apply bind_not_ok_right
+  intro ta
+  simp only [hw, Bool.false_eq_true, if_false]
+  apply bind_not_ok_left
+  rw [hv]
+  apply mapRes_not_ok
+  have hfield : ¬ IsOk (mapRes (fun f => fromAttrs c.F c.traits (· == me) noFieldAttrFromMeta () f.attrs) v.fields) := by
+    rw [hf]
+    apply mapRes_not_ok
+    rw [hfa]
+    exact fromAttrs_misplaced_refused c.F c.traits (· == me) noFieldAttrFromMeta () apre apost a pre post m me ha hms ht (by simp)
+      (not_ok_identOrPanic m _)
+  split
+  · apply bind_not_ok_right
+    intro _
+    exact bind_not_ok_left _ _ hfield
+  · exact bind_not_ok_left _ _ hfield
+
+/-- The instance the repaired defect was about: `#[educe(Clone, Copy)]` with `#[educe(Copy..)]` on a field. -/
+theorem copy_attr_on_field_refused_next_to_clone (c : Ctx) (mt : TraitMeta)
+    (vpre vpost : List Variant) (v : Variant) (hv : c.d.variants = vpre ++ v :: vpost)
+    (fpre fpost : List Field) (f : Field) (hf : v.fields = fpre ++ f :: fpost)
+    (apre apost : List Attribute) (a : Attribute) (hfa : f.attrs = apre ++ a :: apost)
+    (pre post : List TraitMeta) (m : TraitMeta)
+    (ha : (a.isEduce && a.isList) = true) (hms : a.metas = some (pre ++ m :: post)) (ht : traitOf c.F m = some .copy) :
+    ¬ IsOk (markerHandler c mt .copy .clone "::core::marker::Copy" "::core::clone::Clone" true) :=
+  marker_attr_on_field_refused c mt .copy .clone _ _ true (by simp) vpre vpost v hv fpre fpost f hf apre apost a hfa pre post m ha hms ht
+
+/-- Non-vacuity: `#[educe(Clone, Copy)] struct S(#[educe(Copy)] u8);` meets the hypotheses (with `Clone` educed). -/
+example :
+    let m : TraitMeta := { ident := some "Copy", pathStr := "Copy", raw := "Copy", form := .path }
+    let a : Attribute := { isEduce := true, isList := true, metas := some [m] }
+    let f : Field := { ty := "u8", attrs := [a] }
+    let v : Variant := { shape := .tuple, fields := [f] }
+    let c : Ctx := { F := TraitId.all, traits := fun t => t == .clone || t == .copy, d := { name := "S", kind := .struct, variants := [v] } }
+    c.traits .clone = true ∧ c.d.variants = [] ++ v :: [] ∧ v.fields = [] ++ f :: [] ∧ f.attrs = [] ++ a :: [] ∧
+      (a.isEduce && a.isList) = true ∧ a.metas = some ([] ++ m :: []) ∧ traitOf c.F m = some .copy := by decide
+
 end Educe.Attr
